@@ -275,10 +275,21 @@ Proof.
     + apply sum_slices_nu.
 Qed.
 
+Lemma lookup_bind_nu : forall l k (f : vec -> res value),
+    (forall v, nu (f v)) -> nu (bind (lookup l k) f).
+Proof.
+  intros l k f Hf. unfold lookup. destruct (Z.ltb k 0); [unfold nu; discriminate|].
+  destruct (nth_error l (Z.to_nat k)); cbn [bind]; [apply Hf | unfold nu; discriminate].
+Qed.
+
 Lemma parse_leaf_nu : forall l e, nu (parse_leaf l e).
 Proof.
   intros l e; destruct l; cbn [parse_leaf]; try (unfold nu; discriminate).
-  unfold getitem, ad_base. destruct (deriv e); unfold nu; discriminate.
+  - destruct (Z.leb 0 t); [apply lookup_bind_nu; intros; unfold nu; discriminate|].
+    destruct (Z.leb 0 i); [apply lookup_bind_nu; intros; unfold nu; discriminate|].
+    unfold getitem, ad_base. destruct (deriv e); unfold nu; discriminate.
+  - destruct (Z.leb 0 t); [apply lookup_bind_nu; intros; unfold nu; discriminate|].
+    unfold nu; discriminate.
 Qed.
 
 Lemma parse_nu : forall t e, no_rops t = true -> nu (parse t e).
@@ -320,12 +331,31 @@ Qed.
 (* ---------------------------------------------------------------------------------- *)
 (* previous time step / iterate leaves                                                  *)
 (* ---------------------------------------------------------------------------------- *)
-Lemma stored_leaf : forall v st d,
-    parse (Leaf (LStored v)) {| state := st; deriv := d |} = Ok (VVec v) /\
-    evaluate (Leaf (LStored v)) {| state := st; deriv := true |}
-    = Ok (VAd v (zero_mat (length v) (length st))) /\
-    evaluate (Leaf (LStored v)) {| state := st; deriv := false |} = Ok (VVec v).
-Proof. intros; repeat split; reflexivity. Qed.
+(* a variable at a previous time step (first) or iterate evaluates to the values stored at
+   that index, taken at its dofs in the order of its sub-variables: no AdArray, whatever the
+   state and whether or not derivatives are requested *)
+Lemma stored_leaf : forall dofs t i e v,
+    ((0 <= t)%Z /\ lookup (ts e) t = Ok v) \/
+    ((t < 0)%Z /\ (0 <= i)%Z /\ lookup (its e) i = Ok v) ->
+    parse (Leaf (LVar dofs t i)) e = Ok (VVec (take 0 v dofs)) /\
+    evaluate (Leaf (LVar dofs t i)) e
+    = if deriv e then Ok (VAd (take 0 v dofs) (zero_mat (length (take 0 v dofs)) (length (state e))))
+      else Ok (VVec (take 0 v dofs)).
+Proof.
+  intros dofs t i e v H.
+  assert (parse (Leaf (LVar dofs t i)) e = Ok (VVec (take 0 v dofs))) as P.
+  { cbn [parse parse_leaf]. destruct H as [[Ht L] | [Ht [Hi L]]].
+    - apply Z.leb_le in Ht. rewrite Ht, L. reflexivity.
+    - apply Z.leb_gt in Ht. apply Z.leb_le in Hi. rewrite Ht, Hi, L. reflexivity. }
+  split; [exact P|]. unfold evaluate. rewrite P. cbn [bind]. unfold finish. destruct (deriv e); reflexivity.
+Qed.
+
+Lemma stored_tdda : forall pos t e v,
+    (0 <= t)%Z -> lookup (src_ts e) t = Ok v ->
+    parse (Leaf (LTdda pos t)) e = Ok (VVec (take 0 v pos)).
+Proof.
+  intros pos t e v Ht L. cbn [parse parse_leaf]. apply Z.leb_le in Ht. rewrite Ht, L. reflexivity.
+Qed.
 
 (* adding / subtracting a stored vector, or multiplying / dividing by it, leaves the
    Jacobian's dependence to the other operand: no derivative is contributed *)
@@ -341,4 +371,94 @@ Lemma stored_no_derivative_add_flipped : forall x j v r,
 Proof.
   intros x j v r H. cbn [parse_node pyop ad_add bind] in H.
   destruct (same_len x v); cbn [bind] in H; [injection H as <-; eauto | discriminate H].
+Qed.
+
+(* ---------------------------------------------------------------------------------- *)
+(* previous_timestep / previous_iteration of whole trees                                *)
+(* ---------------------------------------------------------------------------------- *)
+Lemma shift_leaf_compose : forall p a b l l' l'',
+    (0 < a)%Z -> (0 < b)%Z ->
+    shift_leaf p a l = Ok l' -> shift_leaf p b l' = Ok l'' -> shift_leaf p (a + b) l = Ok l''.
+Proof.
+  intros p a b l l' l'' Ha Hb H1 H2. destruct l; cbn [shift_leaf] in *;
+    try (injection H1 as <-; cbn [shift_leaf] in H2; exact H2).
+  - destruct p.
+    + destruct (Z.leb 0 i) eqn:Hi; [discriminate H1|]. injection H1 as <-.
+      cbn [shift_leaf] in H2. rewrite Hi in H2. injection H2 as <-. now rewrite Z.add_assoc.
+    + destruct (Z.leb 0 t) eqn:Ht; [discriminate H1|]. injection H1 as <-.
+      cbn [shift_leaf] in H2. rewrite Ht in H2. injection H2 as <-. now rewrite Z.add_assoc.
+  - destruct p; injection H1 as <-; cbn [shift_leaf] in H2; injection H2 as <-;
+      [now rewrite Z.add_assoc | reflexivity].
+Qed.
+
+Lemma shift_tree_compose : forall p a b t t' t'',
+    (0 < a)%Z -> (0 < b)%Z ->
+    shift_tree p a t = Ok t' -> shift_tree p b t' = Ok t'' -> shift_tree p (a + b) t = Ok t''.
+Proof.
+  intros p a b t. induction t as [l | o x IHx y IHy]; intros t' t'' Ha Hb H1 H2.
+  - cbn [shift_tree] in *. destruct (shift_leaf p a l) as [l1 |] eqn:E1; [| discriminate H1].
+    cbn [bind] in H1. injection H1 as <-. cbn [shift_tree] in H2.
+    destruct (shift_leaf p b l1) as [l2 |] eqn:E2; [| discriminate H2].
+    cbn [bind] in H2. injection H2 as <-.
+    now rewrite (shift_leaf_compose p a b l l1 l2 Ha Hb E1 E2).
+  - cbn [shift_tree] in H1.
+    destruct (shift_tree p a x) as [x1 |] eqn:Ex; [| discriminate H1]. cbn [bind] in H1.
+    destruct (shift_tree p a y) as [y1 |] eqn:Ey; [| discriminate H1]. cbn [bind] in H1.
+    injection H1 as <-. cbn [shift_tree] in H2.
+    destruct (shift_tree p b x1) as [x2 |] eqn:Ex2; [| discriminate H2]. cbn [bind] in H2.
+    destruct (shift_tree p b y1) as [y2 |] eqn:Ey2; [| discriminate H2]. cbn [bind] in H2.
+    injection H2 as <-. cbn [shift_tree].
+    rewrite (IHx x1 x2 Ha Hb eq_refl Ex2), (IHy y1 y2 Ha Hb eq_refl Ey2). reflexivity.
+Qed.
+
+(* evaluation of a time-shifted tree whose time-dependent leaves are all at previous time
+   steps already = evaluation of the tree against the stores with the [s] most recent time
+   steps dropped: every such leaf reads [s] steps further back *)
+Fixpoint all_prev_time (t : tree) : bool :=
+  match t with
+  | Leaf (LVar _ t _) => Z.leb 0 t
+  | Leaf (LTdda _ t) => Z.leb 0 t
+  | Leaf _ => true
+  | Bin _ a b => all_prev_time a && all_prev_time b
+  end.
+
+Definition drop_steps (s : nat) (e : env) : env :=
+  {| state := state e; deriv := deriv e; ts := skipn s (ts e); its := its e;
+     src_it0 := src_it0 e; src_ts := skipn s (src_ts e) |}.
+
+Lemma lookup_skipn : forall (l : list vec) (s : nat) (k : Z),
+    (0 <= k)%Z -> lookup (skipn s l) k = lookup l (k + Z.of_nat s).
+Proof.
+  intros l s k Hk. unfold lookup.
+  assert (Z.ltb k 0 = false) as -> by (apply Z.ltb_ge; exact Hk).
+  assert (Z.ltb (k + Z.of_nat s) 0 = false) as -> by (apply Z.ltb_ge; lia).
+  replace (Z.to_nat (k + Z.of_nat s)) with (s + Z.to_nat k)%nat by lia.
+  generalize (Z.to_nat k) as n. clear Hk k. revert l.
+  induction s as [| s IH]; intros l n; [reflexivity|].
+  destruct l as [| x l]; cbn [skipn plus nth_error]; [destruct n; reflexivity | apply IH].
+Qed.
+
+Lemma shift_time_semantics : forall (s : nat) t t' e,
+    (0 < s)%nat -> all_prev_time t = true ->
+    shift_tree true (Z.of_nat s) t = Ok t' ->
+    parse t' e = parse t (drop_steps s e).
+Proof.
+  intros s t. induction t as [l | o a IHa b IHb]; intros t' e Hs Hp H.
+  - cbn [shift_tree] in H. destruct l; cbn [shift_leaf bind] in H;
+      try (injection H as <-; reflexivity).
+    + cbn [all_prev_time] in Hp. destruct (Z.leb 0 i) eqn:Hi; [discriminate H|].
+      cbn [bind] in H. injection H as <-. cbn [parse parse_leaf drop_steps ts].
+      apply Z.leb_le in Hp. assert (Z.leb 0 (t + Z.of_nat s) = true) as -> by (apply Z.leb_le; lia).
+      assert (Z.leb 0 t = true) as -> by (apply Z.leb_le; exact Hp).
+      now rewrite lookup_skipn.
+    + cbn [all_prev_time] in Hp. injection H as <-. cbn [parse parse_leaf drop_steps src_ts].
+      apply Z.leb_le in Hp. assert (Z.leb 0 (t + Z.of_nat s) = true) as -> by (apply Z.leb_le; lia).
+      assert (Z.leb 0 t = true) as -> by (apply Z.leb_le; exact Hp).
+      now rewrite lookup_skipn.
+  - cbn [all_prev_time] in Hp. apply andb_true_iff in Hp as [Hpa Hpb].
+    cbn [shift_tree] in H.
+    destruct (shift_tree true (Z.of_nat s) a) as [a1 |] eqn:Ea; [| discriminate H]. cbn [bind] in H.
+    destruct (shift_tree true (Z.of_nat s) b) as [b1 |] eqn:Eb; [| discriminate H]. cbn [bind] in H.
+    injection H as <-. cbn [parse].
+    now rewrite (IHa a1 e Hs Hpa eq_refl), (IHb b1 e Hs Hpb eq_refl).
 Qed.
